@@ -101,6 +101,10 @@ def run_unit(u, scratch, tier="quick", use_cache=True, keep=False):
         try:
             c = json.load(open(cpath))
             c["cached"] = True; c["tier"] = tier
+            # tags live in comments (not part of the cache key): re-read them
+            for o in c.get("obligations", []):
+                fp = os.path.join(VERIF, o["file"]) if o.get("file", "").startswith(("specs/", "harness/")) else None
+                o["tags"] = tag_of_line(fp, o.get("line", 0)) if fp else None
             shutil.rmtree(work, ignore_errors=True)
             return c
         except Exception:
